@@ -790,7 +790,7 @@ def check_comments(mods, wd, rnd, quick, hist, files, meta, problems, failures):
             "comments_fired": hist["comments:fired"], "samples": fired_samples}
 
 
-# regression programs: every one must keep its significant tokens (witnesses of the repairs 7d53278, 93f3724, bf7f03b)
+# regression programs: every one must keep its significant tokens (witnesses of the repairs 90435ba, f6ddf69, bf7f03b)
 COMMENT_WITNESSES = [
     "# x = 1\x0cy\nprint(2)\n", "# x = f(1)\x0bsys.exit(3)\nprint(2)\n", 'x = b"""\n# foo(1)\n"""\nprint(x)\n',
     "x = 1\n# a = 1\rz = 3\nprint(z)\n", 'x = """\n# foo(1)\n"""\n', "x = 1 \\\n# print(3)\nprint(x)\n",
